@@ -342,6 +342,60 @@ func runC18(c *Ctx) {
 					puts = append(puts, in)
 				}
 			}
+			// ... or put back by a closure made here ("release" functions):
+			// a call of that closure is the Put
+			ir.Instrs(fn, func(in ssa.Instruction) {
+				mc, ok := in.(*ssa.MakeClosure)
+				if !ok {
+					return
+				}
+				anon, _ := mc.Fn.(*ssa.Function)
+				if anon == nil {
+					return
+				}
+				gives := false
+				for _, pin := range find(anon, callTo(put)) {
+					cc := ir.CallOf(pin)
+					if len(cc.Args) < 2 {
+						continue
+					}
+					ir.InfluencedBy(cc.Args[1], func(x ssa.Value) bool {
+						fv, isFV := x.(*ssa.FreeVar)
+						if !isFV {
+							return false
+						}
+						for i, f := range anon.FreeVars {
+							if f != fv || i >= len(mc.Bindings) {
+								continue
+							}
+							b := mc.Bindings[i]
+							if fromPool(b) {
+								gives = true
+							}
+							if al, isAl := b.(*ssa.Alloc); isAl {
+								for _, r := range ir.Refs(al) {
+									if st, isSt := r.(*ssa.Store); isSt && st.Addr == ssa.Value(al) && fromPool(st.Val) {
+										gives = true
+									}
+								}
+							}
+						}
+						return false
+					})
+				}
+				if !gives {
+					return
+				}
+				ir.Instrs(fn, func(x ssa.Instruction) {
+					cc := ir.CallOf(x)
+					if cc == nil || cc.IsInvoke() {
+						return
+					}
+					if ir.DerivesFrom(cc.Value, func(v ssa.Value) bool { return v == ssa.Value(mc) }) {
+						puts = append(puts, x)
+					}
+				})
+			})
 			if len(puts) == 0 {
 				continue
 			}
